@@ -107,8 +107,6 @@ def mode_history(ops, table, seed, n_hist):
 
 
 def mode_threads(ops, table, seed, T, p, per_thread=0):
-    from antlr4.atn.ParserATNSimulator import ParserATNSimulator
-    from antlr4.atn.LexerATNSimulator import LexerATNSimulator
     lock = threading.Lock()
     fills = []  # (thread index, simulator) in order of cache fills
     tidx = {}
@@ -121,13 +119,19 @@ def mode_threads(ops, table, seed, T, p, per_thread=0):
                 fills.append((tidx.get(threading.get_ident(), -1), name))
             return orig(self, *a, **k)
         cls.addDFAState = addDFAState
-    wrap(ParserATNSimulator, "P")
-    wrap(LexerATNSimulator, "L")
+    try:  # observability of the shared parser cache; if the parser technology changes the schedule signature falls back to the switch trace
+        from antlr4.atn.ParserATNSimulator import ParserATNSimulator
+        from antlr4.atn.LexerATNSimulator import LexerATNSimulator
+        wrap(ParserATNSimulator, "P")
+        wrap(LexerATNSimulator, "L")
+    except Exception:
+        pass
 
     mon = sys.monitoring
     TOOL = 3
     mon.use_tool_id(TOOL, "rv-c14")
     state = {"switches": 0, "last": None, "events": 0, "yields": 0}
+    switch_trace = []  # (thread index, code name) at each observed context switch
     rngs = {}
     keep = ("/antlr4/", os.sep + "tucan" + os.sep)
 
@@ -143,6 +147,8 @@ def mode_threads(ops, table, seed, T, p, per_thread=0):
         if state["last"] != me:
             state["switches"] += 1
             state["last"] = me
+            if len(switch_trace) < 2000:
+                switch_trace.append((tidx.get(me, -1), code.co_name))
         if r.random() < p:
             state["yields"] += 1
             time.sleep(0)
@@ -192,7 +198,7 @@ def mode_threads(ops, table, seed, T, p, per_thread=0):
             if d != table[oid]:
                 mism.append({"op": oid, "kind": byid[oid]["op"], "thread": i, "input": byid[oid]["input"][:300]})
     alternations = sum(1 for a, b in zip(fills, fills[1:]) if a[0] != b[0])
-    sig = digest(repr(fills))
+    sig = digest(repr(fills) + repr(switch_trace[:2000]))
     return {"executed": executed, "mismatches": mism[:20], "n_mismatch": len(mism), "errors": errors[:5], "threads": T, "line_events": state["events"],
             "context_switches_observed": state["switches"], "yields_injected": state["yields"], "cache_fills": len(fills),
             "threads_that_filled_cache": len({f[0] for f in fills}), "fill_alternations": alternations, "fill_signature": sig, "wall_s": round(time.time() - t0, 2)}
